@@ -276,7 +276,7 @@ func ruleOwn(p *Prog, r *RuleResult) {
 				return
 			}
 			fv := fieldVarOfAddr(addr)
-			if fv == nil || fv.Name() != "blockID" {
+			if fv == nil || fv != s.parentCounter {
 				return
 			}
 			live := false
